@@ -1,5 +1,6 @@
 """C15 — each (file, pattern) verdict is independent of everything else in the run (DESIGN 5/C15)."""
 from runner import Ob
+from rules import depend
 import sites as S
 import terms as T
 import order as O
@@ -17,7 +18,7 @@ META = {
                    "R15.perfile (the per-file call receives only this file's content, the index and the pattern), R15.retain (the accumulator of analyze_dir and the lists in it are only the receiver of grow-only operations, so what was recorded for one file survives the processing of every other entry). A function of its arguments only, with no shared "
                    "state, gives the same result under any co-selection, repetition or thread interleaving.",
     "assumptions": ["solang_parser::parse and regex are pure functions of their arguments (dependency code is not analysed)"],
-    "floors": {"R15.effects": 3, "R15.fileno": 3, "R15.perfile": 3, "R15.order": 10, "R15.siblings": 3, "R15.retain": 3},
+    "floors": {"R15.effects": 3, "R15.fileno": 3, "R15.perfile": 3, "R15.order": 10, "R15.siblings": 3, "R15.retain": 3, "R15.render": 3},
 }
 
 EFFECT_PREFIXES = ("std::fs::", "std::env::", "std::time::", "std::process::", "std::net::", "std::thread::", "std::io::", "rand::", "std::sync::",
@@ -173,6 +174,11 @@ def run(ctx, crate):
                       not bad and n > 0 and w.acc[0] != "phi", expected="entry / or_insert / push / append / extend with the accumulator as receiver",
                       found=bad or "%d uses, all grow-only" % n,
                       example="dir/A.sol listed before dir/sub/: the merge of sub's findings must leave A.sol's in place"))
+    # a file's entries survive rendering whatever other files are reported: the generators render every (file, lines) pair they are handed (C11's loop obligations)
+    for gen in ("report::optimization_report::generate_optimization_report", "report::vulnerability_report::generate_vulnerability_report", "report::qa_report::generate_qa_report"):
+        obs.append(depend.inherited(ctx, crate, "R15.render", gen, "every (file, lines) pair is rendered, whatever other files are listed with it (C11's loop obligations)",
+                                    "C11", lambda o, gen=gen: o.rule == "R11.entries" and o.fn == gen and o.detail.startswith("loops"),
+                                    example="two files with the same base name in different directories"))
     return obs
 
 
